@@ -14,7 +14,7 @@ from .. import effects as E
 from .. import idioms as ID
 from .. import summary as SM
 from .. import symx as SX
-from ..model import calls_in, get_arg, is_self_attr, method_name, strip_doc
+from ..model import call_name, calls_in, get_arg, is_self_attr, method_name, strip_doc
 from ..report import AnalysisError, norm_src
 
 TREE_ALGOS = {"T_HOO": "HOO_node", "HCT": "HCT_node", "VHCT": "VHCT_node"}
@@ -129,7 +129,7 @@ def check_call_bindings(ctx, algo, ncls):
                 for k in ps:
                     v = bound.get(k)
                     if k == "delta_tilde":
-                        if v != "delta_tilde":
+                        if v not in delta_vars(fn):
                             bad.append("%s=%s" % (k, v))
                     elif v != "self." + k:
                         bad.append("%s=%s" % (k, v))
@@ -138,8 +138,39 @@ def check_call_bindings(ctx, algo, ncls):
     ctx.count("R05-PARAM index-evaluation call sites in %s" % algo, n, 1 if algo == "T_HOO" else 2)
 
 
-def delta_sites(ctx, algo):
+def is_delta_def(s):
+    """An assignment `<local> = min(kappa, ... self.delta ...)`: a delta~ computation whatever the local is called."""
+    if not (isinstance(s, ast.Assign) and len(s.targets) == 1 and isinstance(s.targets[0], ast.Name) and isinstance(s.value, ast.Call)):
+        return False
+    if s.targets[0].id == "delta_tilde":
+        return True
+    f = norm_src(s.value.func)
+    return f in ("np.minimum", "min", "numpy.minimum", "np.fmin") and any(is_self_attr(y, "delta") for y in ast.walk(s.value))
+
+
+def delta_vars(fn):
+    return {x.targets[0].id for x in ast.walk(fn) if is_delta_def(x)} | {a.arg for a in fn.args.args if a.arg == "delta_tilde"}
+
+
+def delta_uses(fn, var="delta_tilde"):
+    """What the local delta~ of `fn` feeds: 'tau' (threshold list / compute_tau_hi_value), 'width' (compute_u_value), 'both', 'none'."""
+    tau = width = False
+    for x in ast.walk(fn):
+        if isinstance(x, ast.Call) and any(isinstance(y, ast.Name) and y.id == var for a in list(x.args) + [k.value for k in x.keywords]
+                                           for y in ast.walk(a)):
+            m = method_name(x) or call_name(x) or ""
+            if m == "compute_tau_hi_value" or (m in ("append", "extend") and "tau" in norm_src(x.func)):
+                tau = True
+            elif m == "compute_u_value":
+                width = True
+        if isinstance(x, ast.Assign) and "tau" in norm_src(x.targets[0]) and any(isinstance(y, ast.Name) and y.id == var for y in ast.walk(x.value)):
+            tau = True
+    return "both" if tau and width else "tau" if tau else "width" if width else "none"
+
+
+def delta_sites(ctx, algo, rule="R05-DELTA", only_tau=False):
     """R05-DELTA: t+ = 2^ceil(log2 t), delta~ = min(kappa, c1*delta/t+), c1 = (rho/(3 nu))^(1/8)."""
+    n_tau = [0]
     model = ctx.model
     c = model.cls(algo)
     file = c.file
@@ -168,8 +199,11 @@ def delta_sites(ctx, algo):
     n = 0
     for fn in c.methods.values():
         for s in ast.walk(fn):
-            if isinstance(s, ast.Assign) and len(s.targets) == 1 and norm_src(s.targets[0]) == "delta_tilde":
+            if is_delta_def(s):
+                var = s.targets[0].id
                 n += 1
+                if delta_uses(fn, var) in ("tau", "both"):
+                    n_tau[0] += 1
                 qual = "%s.%s" % (algo, fn.name)
                 ctx.fn(qual)
                 Sm = SM.Summarizer(model, algo)
@@ -177,23 +211,37 @@ def delta_sites(ctx, algo):
                 try:
                     ps = Sm.run(fn)
                 except SX.Untranslatable as ex:
-                    ctx.violation("R05-DELTA", file, qual, norm_src(s), "cannot read: %s" % ex, s.lineno)
+                    ctx.violation(rule, file, qual, norm_src(s), "cannot read: %s" % ex, s.lineno)
                     continue
                 # value of delta_tilde in front of the first loop / at exit
                 states = [st2 for (_, st2) in Sm.at_loop] + ps
-                vals = [p.locals.get("delta_tilde") for p in states if p.locals.get("delta_tilde") is not None]
+                vals = [p.locals.get(var) for p in states if p.locals.get(var) is not None]
                 it = sp.Symbol("iteration", positive=True)
                 tplus = 2 ** sp.ceiling(sp.log(it) / sp.log(2))
+                # the cap depends on what this delta~ feeds (instances confirmed on the reference tree): thresholds use
+                # min(1/2, .) - with cap 1 the threshold ceil(c^2 ln(1/delta~) ..) degenerates to 0 in the early rounds -
+                # and confidence widths use min(1, .)
+                uses = delta_uses(fn, var)
+                want = {"tau": [sp.Rational(1, 2)], "width": [sp.Integer(1)], "both": [], "none": [sp.Integer(1), sp.Rational(1, 2)]}[uses]
+                if only_tau and uses not in ("tau", "both"):
+                    continue
                 good = bool(vals)
                 for v in vals:
                     okk = False
-                    for kappa in (sp.Integer(1), sp.Rational(1, 2)):
+                    for kappa in want:
                         eq, _ = SX.equivalent(v, sp.Min(kappa, sp.Symbol("c1", positive=True) * sp.Symbol("delta", positive=True) / tplus))
                         if eq is True:
                             okk = True
                     good &= okk
-                ctx.ob("R05-DELTA", good, file, qual, norm_src(s),
-                       "delta~ = min(kappa, c1*delta/t+(iteration)), kappa in {1, 1/2}" if good else "delta~ is %s" % vals[:1], s.lineno)
+                ctx.ob(rule, good, file, qual, norm_src(s),
+                       "delta~ = min(%s, c1*delta/t+(iteration)) (feeds: %s)" % ("|".join(str(k) for k in want), uses) if good else
+                       "delta~ is %s; it feeds %s, for which the cap is %s" % (vals[:1], {"tau": "the expansion thresholds", "width": "the confidence widths",
+                                                                                  "both": "both thresholds and widths (they use different caps)",
+                                                                                  "none": "nothing recognised"}[uses],
+                                                                        "|".join(str(k) for k in want) or "not a single value"), s.lineno)
+    if only_tau:
+        ctx.count("%s delta~ computations feeding thresholds in %s" % (rule, algo), n_tau[0], 1)
+        return
     ctx.count("R05-DELTA delta~ computations in %s" % algo, n, 3)
 
 
@@ -262,8 +310,9 @@ def check_tau(ctx, algo):
                         okbody = False
                 got = Sm.T.tr(app[0].args[0])
                 cc, d, rho, nu = S("c"), sp.Symbol("DT", positive=True), S("rho"), S("nu")
-                dt = st[0].locals.get("delta_tilde")
-                got = got.subs(dt, d) if dt is not None else got
+                for dv in sorted(delta_vars(fn)):
+                    dt = st[0].locals.get(dv)
+                    got = got.subs(dt, d) if dt is not None else got
                 ref = sp.ceiling(cc ** 2 * sp.log(1 / d) * rho ** (-2 * h) / nu ** 2)
                 eq, wit = SX.equivalent(got, ref)
                 ok = eq is True
@@ -544,6 +593,17 @@ def run(ctx):
         ctx.attempt("R05-B", fa, "%s.updateBackwardTree" % algo, "B recursion", check_backward, ctx, algo)
         ctx.attempt("R05-DESCENT", fa, "%s.optTraverse" % algo, "descent", check_descent, ctx, algo)
         ctx.attempt("R05-FRESH", fa, "%s.updateAllTree" % algo, "refresh order", check_fresh, ctx, algo)
+    # the statistics the index is built from are the empirical ones (mean, count, clipped variance of the cell's own rewards)
+    from . import c04
+    from ..report import Ctx
+    tmp = Ctx(ctx.prop, ctx.tier, ctx.seed, ctx.model)
+    c04.check_node_classes(tmp, only=sorted(TREE_ALGOS.values()))
+    for o in tmp.obligations:
+        ctx.obligations.append(dict(o, rule="R05-STAT"))
+    for f in tmp.findings:
+        ctx.add_finding("R05-STAT", f.file, f.qual, f.construct, f.why, f.line)
+    ctx.functions |= tmp.functions
+    ctx.shortfalls += tmp.shortfalls
     return dict(
         explanation=(
             "For T-HOO, HCT and VHCT: (U) compute_u_value is summarised symbolically (two cases: never pulled -> infinite U; pulled -> "
